@@ -540,10 +540,9 @@ def race_key(block):
         if "geoip" in low:
             return "OnReload/GeoIP"
         return "OnReload/policy-lists"
-    accs = re.findall(r"(?:Read|Write|Previous read|Previous write) at .*?\n((?:\s+\S+\n\s+\S+\n)+)", block)
     names = []
-    for a in accs:
-        fns = re.findall(r"^\s+(\S+?)\(\S*\)\n\s+(\S+):\d+", a, flags=re.M)
+    for para in block.split("\n\n")[:2]:
+        fns = re.findall(r"^\s+(\S+)\(\S*\)\s*\n\s+(\S+?):\d+", para, flags=re.M)
         pick = [f for f, fl in fns if "conjure/" in f and "zz_verif" not in fl and ".c9" not in f]
         names.append(pick[0].split("/")[-1] if pick else "driver")
     return "+".join(sorted(set(names))) or "unknown"
